@@ -333,7 +333,9 @@ def report(ctx, what, detail, signature=None):
         if k["match"] not in [x["match"] for x in ctx.known_hits]:
             ctx.known_hits.append(k)
         return
-    if len(ctx.violations) >= 20:
+    ctx.sig_counts = getattr(ctx, "sig_counts", {})
+    ctx.sig_counts[signature] = ctx.sig_counts.get(signature, 0) + 1
+    if ctx.sig_counts[signature] > 3 or len([v for v in ctx.violations if v[1]]) >= 45:
         ctx.violations.append((what, None))
         return
     path = ctx.replay_path()
